@@ -442,6 +442,14 @@ theorem gen_decision_expectile_range (e : α) :
   unfold Gen.expectile_range_check validExpectile
   by_cases h1 : (1:α) ≤ e <;> by_cases h0 : e ≤ 0 <;> simp [h1, h0]
 
+/-- the argument checks at the head of `fit_quantile` are the model's `argsOk` (with the iteration budget an integer):
+`quantile ∉ (0, 1)`, `tol ≤ 0` or `max_iter ≤ 0` raise `ValueError`, in that order; otherwise the quantile is accepted -/
+theorem gen_decision_fit_quantile_checks (q tol : α) (maxIter : Int) :
+    Gen.fit_quantile_checks q (maxIter : α) tol = if argsOk q tol maxIter then .ok q else .error "ValueError" := by
+  unfold Gen.fit_quantile_checks argsOk
+  have hc : ((maxIter : α) ≤ 0) ↔ maxIter ≤ 0 := by exact_mod_cast Iff.rfl
+  by_cases h1 : q ≤ 0 ∨ (1:α) ≤ q <;> by_cases h2 : tol ≤ 0 <;> by_cases h3 : maxIter ≤ 0 <;> simp [h1, h2, h3, hc]
+
 end gen_decisions
 
 end PyGam.C18
